@@ -7,6 +7,7 @@ CONSTANTS
   Bodies = {1, 2}
   Protos = {"ok", "unk"}
   RoleCfgs <- GenRoleCfgs
+  AllowCfgs <- GenAllowCfgs
   TypeCfgs <- GenTypeCfgs
   NB = 2
   LB = 2
